@@ -4,6 +4,7 @@ import (
 	"bytes"
 	"encoding/xml"
 	"fmt"
+	"os"
 	"strconv"
 	"strings"
 	"sync"
@@ -55,6 +56,7 @@ type c09case struct {
 	readSize int
 	echo     bool
 	timeout  time.Duration
+	longline bool
 }
 
 var c09extras = []string{
@@ -88,7 +90,7 @@ func genC09(seed uint64, cell int, thorough bool) c09case {
 	case 1:
 		cs.depth = r.Range(200, 5000)
 	}
-	cs.timeout = 2500 * time.Millisecond
+	cs.timeout = 1500 * time.Millisecond
 	// --- layout
 	switch r.Intn(5) {
 	case 0, 1:
@@ -169,6 +171,18 @@ func genC09(seed uint64, cell int, thorough bool) c09case {
 	cs.segK = r.Range(2, 64)
 	cs.readSize = []int{8192, 8192, 65535, 64, 7, 1}[r.Intn(6)]
 	cs.echo = r.Bool()
+	// keep a session below ~300 transport reads: byte-by-byte delivery only for short hellos
+	if minChunk := len(cs.render())/300 + 1; minChunk > 1 {
+		if cs.segClass == 1 {
+			cs.segClass, cs.segK = 2, minChunk+r.Intn(3)
+		}
+		if cs.segClass == 2 && cs.segK < minChunk {
+			cs.segK = minChunk
+		}
+		if cs.readSize < minChunk {
+			cs.readSize = minChunk + r.Intn(5)
+		}
+	}
 	return cs
 }
 
@@ -250,6 +264,36 @@ func genC09raw(seed uint64, cell int) c09case {
 		cs.raw = bytes.ReplaceAll(cs.raw, []byte(c09delim), []byte("]]"))
 	}
 	cs.timeout = 2500 * time.Millisecond
+	return cs
+}
+
+// genC09longline: a hello of the grammar written on ONE line longer than the default search depth,
+// followed by the delimiter and a line feed, everything delivered in one read. Probe for the
+// search-window side condition of open_negotiates (candidate finding C09-W1).
+func genC09longline(seed uint64, cell int) c09case {
+	r := vlib.NewRng(seed)
+	cs := genC09(seed, cell, false)
+	cs.longline = true
+	cs.depth = 1000
+	if cs.hasDecl {
+		cs.decl = `xml version="1.0" encoding="UTF-8"?>`
+	}
+	cs.attrs = ` xmlns="urn:ietf:params:xml:ns:netconf:base:1.0"`
+	if cs.pfx != "" {
+		cs.attrs = ` xmlns:` + cs.pfx + `="urn:ietf:params:xml:ns:netconf:base:1.0"`
+	}
+	cs.ws = [5]string{}
+	for len(cs.uris) < 24 {
+		cs.uris = append(cs.uris, c09extras[r.Intn(6)])
+	}
+	cs.wsAfter = make([]string, len(cs.uris))
+	if cs.hasSid {
+		cs.sid = "77"
+	}
+	cs.suffix = "\n"
+	cs.segClass = 0
+	cs.readSize = 65535
+	cs.timeout = 400 * time.Millisecond
 	return cs
 }
 
@@ -382,11 +426,14 @@ func runC09case(cs c09case) c09obs {
 	o.sid = d.SessionID()
 	o.sentOpen = srv.AllWritten()
 	if err == nil {
-		r, rerr := d.GetConfig("running")
-		o.rpcClass = errClass(rerr)
-		if rerr == nil {
-			o.rpcFailed = r.Failed != nil
-			o.rpcResult = r.Result
+		// the adversarial stream's hello text need not match what the simulator speaks: no RPC there
+		if cs.kind == "grammar" {
+			r, rerr := d.GetConfig("running")
+			o.rpcClass = errClass(rerr)
+			if rerr == nil {
+				o.rpcFailed = r.Failed != nil
+				o.rpcResult = r.Result
+			}
 		}
 		done := make(chan struct{})
 		go func() { _ = d.Close(); close(done) }()
@@ -577,6 +624,8 @@ func runC09(c *ctx) {
 			switch f[1] {
 			case "witness":
 				cs = genC09witness(cell)
+			case "longline":
+				cs = genC09longline(seed, cell)
 			case "raw":
 				cs = genC09raw(seed, cell)
 			case "nohello":
@@ -614,7 +663,14 @@ func runC09(c *ctx) {
 			cases = append(cases, genC09raw(c.rng.U64(), cell))
 		}
 	}
+	for cell := 0; cell < 12; cell++ {
+		cases = append(cases, genC09longline(c.rng.U64(), cell))
+	}
 	c09check(c, cases)
+	if w := res.Distribution["window-probe:total"]; w > 0 {
+		res.Note("search-window probe (candidate finding C09-W1): one-line hello longer than the search depth + delimiter + LF in ONE read: Open timed out in %d of %d probes (the property's table expected %d successes / %d NETCONF errors); the model of the code predicts the timeout in %d",
+			res.Distribution["window-probe:impl-timeout"], w, res.Distribution["window-probe:want-ok"], res.Distribution["window-probe:want-netconf"], res.Distribution["window-probe:model-timeout"])
+	}
 	res.Exhaustive = true
 	res.ExhaustiveOf = "the 12 negotiation cells (each with every generated layout class); the 4x3 decision table of determineVersion incl. invalid preference strings (internal tie) when available"
 }
@@ -658,12 +714,11 @@ func c09options(c *ctx) {
 	}
 }
 
-func c09check(c *ctx, cases []c09case) {
-	res := c.res
-	obs := make([]c09obs, len(cases))
+// c09runAll runs the listed cases (indices into cases) against the real driver, par at a time.
+func c09runAll(cases []c09case, obs []c09obs, idx []int, par int) {
 	var wg sync.WaitGroup
-	sem := make(chan struct{}, 16)
-	for i := range cases {
+	sem := make(chan struct{}, par)
+	for _, i := range idx {
 		wg.Add(1)
 		sem <- struct{}{}
 		go func(i int) {
@@ -673,18 +728,74 @@ func c09check(c *ctx, cases []c09case) {
 		}(i)
 	}
 	wg.Wait()
+}
+
+func c09wireLine(o c09obs) string {
+	v := o.ver
+	if v != "1.0" && v != "1.1" {
+		v = "1.0"
+	}
+	return "c09 wire " + v + " " + vlib.Hex(o.reqRaw)
+}
+
+// c09modelClass extracts the class the model of the code predicts from a driver answer.
+func c09modelClass(ans string) string {
+	parts := strings.Split(ans, " | ")
+	f := strings.Fields(parts[len(parts)-1])
+	if len(f) == 0 {
+		return ""
+	}
+	return f[0]
+}
+
+func c09check(c *ctx, cases []c09case) {
+	res := c.res
+	obs := make([]c09obs, len(cases))
+	all := make([]int, len(cases))
+	for i := range all {
+		all[i] = i
+	}
+	c09runAll(cases, obs, all, 16)
 	lines := make([]string, len(cases))
 	wire := make([]string, len(cases))
 	for i, cs := range cases {
 		lines[i] = cs.request(obs[i])
-		v := obs[i].ver
-		if v != "1.0" && v != "1.1" {
-			v = "1.0"
-		}
-		wire[i] = "c09 wire " + v + " " + vlib.Hex(obs[i].reqRaw)
+		wire[i] = c09wireLine(obs[i])
 	}
 	ans := c.ask(append(lines, wire...))
 	wans := ans[len(cases):]
+	// A timeout is the only wall-clock dependent observable. Where the implementation timed out but
+	// the model (which knows exactly which reads arrived) says the read completes, or the first RPC
+	// timed out, the machine may simply have been slow: run those cases again, alone and with a
+	// very generous deadline, before judging them.
+	var again []int
+	for i := range cases {
+		o := obs[i]
+		if o.newErr != "nil" {
+			continue
+		}
+		if (o.openClass == "timeout" && c09modelClass(ans[i]) != "timeout") || (o.openClass == "nil" && o.rpcClass == "timeout") {
+			again = append(again, i)
+		}
+	}
+	if len(again) > 0 && len(again) <= 48 {
+		for _, i := range again {
+			cases[i].timeout = 30 * time.Second
+			res.Count(fmt.Sprintf("rerun: kind=%s cell=%d seed=%d open=%s rpc=%s echo=%v seg=%d", cases[i].kind, cases[i].cell, cases[i].seed, obs[i].openClass, obs[i].rpcClass, cases[i].echo, cases[i].segClass))
+		}
+		c09runAll(cases, obs, again, 2)
+		var l2 []string
+		for _, i := range again {
+			lines[i] = cases[i].request(obs[i])
+			wire[i] = c09wireLine(obs[i])
+			l2 = append(l2, lines[i], wire[i])
+		}
+		a2 := c.ask(l2)
+		for k, i := range again {
+			ans[i], wans[i] = a2[2*k], a2[2*k+1]
+		}
+		res.Distribution["rerun-with-30s-deadline-after-timeout"] += len(again)
+	}
 	for i, cs := range cases {
 		o := obs[i]
 		tier := ""
@@ -692,6 +803,9 @@ func c09check(c *ctx, cases []c09case) {
 			tier = " thorough"
 		}
 		caseLine := fmt.Sprintf("c09case %s %d %d%s", cs.kind, cs.seed, cs.cell, tier)
+		if cs.longline {
+			caseLine = fmt.Sprintf("c09case longline %d %d", cs.seed, cs.cell)
+		}
 		if cs.seed == 0 {
 			caseLine = fmt.Sprintf("c09case witness 0 %d", cs.cell)
 		}
@@ -740,6 +854,9 @@ func c09check(c *ctx, cases []c09case) {
 		res.Case(strconv.FormatUint(cs.seed, 10)+":"+strconv.Itoa(cs.cell)+":"+cs.kind, nontriv)
 		res.Count(fmt.Sprintf("dom:%v", dom))
 		res.Count("impl:" + impl.class)
+		if impl.class == "timeout" {
+			res.Count(fmt.Sprintf("timeout: kind=%s depth=%d suffix=%q seg=%d dom=%v model=%s", cs.kind, cs.depth, cs.suffix, cs.segClass, dom, rx.class))
+		}
 		if i%97 == 0 {
 			res.Sample(map[string]any{"case": caseLine, "cell": fmt.Sprintf("caps10=%v caps11=%v pref=%q", cs.caps10, cs.caps11, cs.pref),
 				"hello": string(cs.render()), "suffix": cs.suffix, "reads": len(o.chunks), "echo": cs.echo, "depth": cs.depth,
@@ -765,6 +882,21 @@ func c09check(c *ctx, cases []c09case) {
 			}
 			if scan.class != "netconf" {
 				res.Fail("machinery", caseLine, "scanner model does not fail on a message without hello", "model-vs-spec")
+			}
+			continue
+		}
+		if cs.longline {
+			// outside the theorem's window hypothesis by construction; the property itself has no such caveat
+			res.Count("window-probe:total")
+			res.Count("window-probe:impl-" + impl.class)
+			res.Count("window-probe:model-" + rx.class)
+			if spec.class == "ok" {
+				res.Count("window-probe:want-ok")
+			} else {
+				res.Count("window-probe:want-netconf")
+			}
+			if impl.class != spec.class && c09knownRecorded("C09-W1") {
+				res.Fail("oracle", caseLine, fmt.Sprintf("one-line hello of %d bytes + delimiter + LF in one read, search depth %d: Open returned %s (%s), the property demands %s", len(cs.render()), cs.depth, impl.class, o.openErr, spec.class), "search-window:"+impl.class+"-for-"+spec.class)
 			}
 			continue
 		}
@@ -841,6 +973,17 @@ func c09check(c *ctx, cases []c09case) {
 		}
 	}
 	res.TracesVsImpl += len(cases)
+}
+
+// c09knownRecorded: the search-window probe only gates (as a KNOWN-FINDING) once the finding has
+// been recorded in known_findings.json; until then it is reported in the evidence notes.
+func c09knownRecorded(id string) bool {
+	for _, p := range []string{"../known_findings.json", "known_findings.json"} {
+		if b, err := os.ReadFile(p); err == nil {
+			return bytes.Contains(b, []byte(`"`+id+`"`))
+		}
+	}
+	return false
 }
 
 func c09b(b bool) int {
